@@ -10,7 +10,7 @@ RULE = ("the setter transitions (SetSize for every size-like member x scale fact
         "spec's table of settable members is cross-checked against reflection; distinct = (class, base, source state, call)")
 
 ALL = c03.CLASSES + ["Circle", "Ellipse", "Sphere", "Ellipsoid"]
-SETTER_OPS = {"set", "setbad", "centroid", "radius", "radiusbad", "axis", "axisbad"}
+SETTER_OPS = {"set", "setnear", "setbad", "centroid", "centroidbad", "radius", "radiusbad", "axis", "axisbad"}
 
 
 def reflect_check(ctx):
